@@ -3,11 +3,11 @@ SPECIFICATION MCSpec
 CONSTANTS
   Stores = {"s1", "s2"}
   Txns = {"t1", "t2"}
-  Findings = {"copyReadsPassive", "staleSnapshot", "logFlagLost", "ffNotIdempotent", "createFailsOnPassive", "failoverNotDurable"}
+  Findings = {"copyReadsPassive", "staleSnapshot", "logFlagLost", "ffNotIdempotent", "createFailsOnPassive", "failoverNotDurable", "copyFailsOnDroppedStore"}
   NoR = 0
   MaxLid = 3
   MaxR = 5
-  Budget <- BudgetSmall
+  Budget <- BudgetQuick
 INVARIANTS TypeOK Faithful FlagPersisted FreshAgrees NoLogLeft
 CONSTRAINT Bounded
 VIEW MCView
